@@ -286,6 +286,13 @@ def gen_table(rng, kind="f0", **kw):
         gen_alphabet(rng, t, upper=False)
         gen_passes(rng, t, per_stage=kw.get("per_stage", (0, 3)), literal_only=kw.get("literal_only", True),
                    biased_nonconsuming=kw.get("biased", False))
+    elif kind == "composite":
+        # a main pass with translation rules (fragment F0) between correct and pass2-4 stages, no context rules: the
+        # fragment whose WHOLE call the model computes (LouModel/Engine.lean)
+        gen_alphabet(rng, t, upper=False)
+        gen_translation_rules(rng, t)
+        gen_passes(rng, t, per_stage=kw.get("per_stage", (0, 3)), stages=("correct", "pass2", "pass3", "pass4"),
+                   literal_only=True, biased_nonconsuming=kw.get("biased", False))
     elif kind == "extras":
         gen_alphabet(rng, t, upper=False)
         gen_translation_rules(rng, t)
